@@ -128,4 +128,7 @@ MUTANTS = [
     # ---- vanished anchor
     M("vanish-connection-problem", PUB,
       "    def _connection_problem(self, f, writer):", "    def _connection_problemX(self, f, writer):", "ANALYSIS-ERROR"),
+    # ---- C47.9 (surprise detection adopted from C12; added after seeded change C47-B)
+    M("surprise-flag-last-share-wins", "src/allmydata/mutable/publish.py",
+      "                surprised = True\n\n        if surprised:", "                surprised = (checkstring != self._checkstring)\n\n        if surprised:", "C47.9"),
 ]
